@@ -675,7 +675,15 @@ def run(prog, tier, seed):
     from . import c13, c14
     adj = T(c13.adjacency_field, prog)
     if adj:
-        dep = dep + adopt(T.results(T(c14.rule_k4, prog, adj)), PROP,
+        dep = dep + adopt(T.results(T(c14.rule_k4, prog, adj),
+                                    T(c14.rule_k1, prog, adj)), PROP,
                           'the clone label_fair_states writes into')
+    # a fair answer must be computed for the structure as it is now: no
+    # table that survives the call (keyed by the object, not its content)
+    from . import c07
+    E = T(c07.effects, prog)
+    if E is not None:
+        dep = dep + adopt(T.results(T(c07.rule_pure4, prog, E)), PROP,
+                          'no remembered fair structure')
     return T.results(r1, r2, r4, r3, r5, r6) + dep, expl, assumptions, \
         T.extra()
